@@ -397,3 +397,53 @@ MUTANTS += [
     {"id": "C11-benign-pixels-try-for-each", "prop": "C11", "benign": True,
      "edits": [(I, _PIX, "            img.iter()\n                .try_for_each(|color| payload_write.write_all(&color.to_rgba()))?;\n")]},
 ]
+
+# ---- inverse of the placement id with the offset removed once through a floor (`id.max(1) - 1` is saturating_sub(1)); a floor
+# ---- above the forward function's offset is not the identity on produced ids
+_INV_HEAD = "fn kitty_placement_to_pos(placement_id: u64) -> Position {\n"
+_INV_IDX = ('        col: (index / KITTY_MAX_DIM) as usize,\n'
+            '        row: (index % KITTY_MAX_DIM) as usize,')
+MUTANTS += [
+    {"id": "C11-benign-inverse-max-minus-one", "prop": "C11", "benign": True,
+     "edits": [(I, _INV_HEAD, _INV_HEAD + "    let index = placement_id.max(1) - 1;\n"), (I, INVERSE, _INV_IDX)]},
+    {"id": "C11-benign-inverse-cmp-max-minus-one", "prop": "C11", "benign": True,
+     "edits": [(I, _INV_HEAD, _INV_HEAD + "    let index = std::cmp::max(1, placement_id) - 1;\n"), (I, INVERSE, _INV_IDX)]},
+    {"id": "C11-inverse-floor-above-offset", "prop": "C11", "expect": "PAIRING/image::kitty_placement_to_pos/inverse-disagrees",
+     "edits": [(I, _INV_HEAD, _INV_HEAD + "    let index = placement_id.max(2) - 1;\n"), (I, INVERSE, _INV_IDX)]},
+    {"id": "C11-inverse-floor-wrong-offset", "prop": "C11", "expect": "PAIRING/image::kitty_placement_to_pos/inverse-disagrees",
+     "edits": [(I, _INV_HEAD, _INV_HEAD + "    let index = placement_id.max(1) - 0;\n"), (I, INVERSE, _INV_IDX)]},
+]
+
+# ---- seeded/benign C14-J: the pixel -> base64 sequence shared by `impl Serialize for Image` and draw through one private free fn
+# ---- (two callers: expanded per root); the same helper feeding 3 bytes per pixel / the backing store order is caught
+_SER_LOOP = ('        let mut writer = Base64Encoder::new(Vec::new());\n'
+             '        for pixel in self.iter() {\n'
+             '            writer.write_all(&pixel.to_rgba()).map_err(|err| {\n'
+             '                ser::Error::custom(format!("[Image] faield to serialize data: {err}"))\n'
+             '            })?;\n'
+             '        }\n'
+             '        let data = writer.finish().map_err(|err| {\n')
+_SER_HELPER = '        let data = base64_rgba(self).map_err(|err| {\n'
+_SER_IMPL = "impl Serialize for Image {\n"
+
+
+def _shared_helper(loop_src="img.iter()", item="&pixel.to_rgba()"):
+    return ('fn base64_rgba(img: &Image) -> std::io::Result<Vec<u8>> {\n'
+            '    let mut encoder = Base64Encoder::new(Vec::new());\n'
+            '    for pixel in %s {\n'
+            '        encoder.write_all(%s)?;\n'
+            '    }\n'
+            '    encoder.finish()\n'
+            '}\n\n' % (loop_src, item)) + _SER_IMPL
+
+
+MUTANTS += [
+    {"id": "C11-benign-payload-helper-shared-with-serialize", "prop": "C11", "benign": True,
+     "edits": [(I, PIXEL_LOOP, '            let payload = base64_rgba(img)?;\n'), (I, _SER_LOOP, _SER_HELPER), (I, _SER_IMPL, _shared_helper())]},
+    {"id": "C11-payload-shared-helper-rgb-only", "prop": "C11", "expect": "PAYLOAD/KittyImageHandler::draw/",
+     "edits": [(I, PIXEL_LOOP, '            let payload = base64_rgba(img)?;\n'), (I, _SER_LOOP, _SER_HELPER),
+               (I, _SER_IMPL, _shared_helper(item="&pixel.to_rgba()[..3]"))]},
+    {"id": "C11-payload-shared-helper-backing-store-order", "prop": "C11", "expect": "PAYLOAD/KittyImageHandler::draw/pixel-order",
+     "edits": [(I, PIXEL_LOOP, '            let payload = base64_rgba(img)?;\n'), (I, _SER_LOOP, _SER_HELPER),
+               (I, _SER_IMPL, _shared_helper(loop_src="img.data().iter()"))]},
+]
